@@ -468,8 +468,11 @@ Explicit hypotheses (third-party or out of model):
 * sizes: the output stays below 2³¹ bytes (`fileMax`, the range of the lexer theorems), parser fuel `pfuel` at least
   three times the file length (the driver's `3·len + 64`);
 * `GoodHist`: the values written are within the limits of `C04.parse_serialize_indirect` / `parse_serialize_stream`
-  (`OKVal`), and no save of the history failed *after* appending its revision (`Trailer::from_dict` failing because
-  the catalog no longer resolves: the real backend keeps those bytes, `saveB` does not model that).
+  (`OKVal`). Nothing is asked of the saves of the history: a save may succeed, fail before anything is written
+  (truncated away), or fail *after* its revision was appended (`Trailer::from_dict`: the catalog no longer loads) — the
+  backend keeps that revision, `saveB` appends it, and the bytes keep representing the document
+  (`late_failure_keeps_revision_bytes`); whether the typed reload succeeds is the input `typed` of `OpB.save`
+  (typed readers: C15).
 -/
 
 namespace C09Bytes
